@@ -79,6 +79,11 @@ def gen_fmt(run):
     run.dyn_compile(['FmtGen', 'FmtGenProps'])
     return ok
 
+def gen_scopes(run):
+    ok = run.generate('scopes2v(resolution.py: _collect_scopes_from_layers, scopes_for_owner for attribute-set owners)', ['-W', 'ignore', os.path.join(VERIF, 'tools', 'scopes2v.py'), REPO], 'ScopesGen.v')
+    run.dyn_compile(['ScopesGen', 'ScopesProps'])
+    return ok
+
 def gen_cli(run):
     return run.generate('cli2v(cli/main.py:main match arms)', ['-W', 'ignore', os.path.join(VERIF, 'tools', 'cli2v.py'), REPO], 'CliGen.v')
 
@@ -236,6 +241,7 @@ RES_ASSUME = ['three hand-written models (resolver core, chain-construction stat
               'Nix scoping itself is represented by the registry-free positional traversal (access_pure) inside the rec-free domain and by the reference resolver of the search']
 def C10(run):
     run.static()
+    gen_scopes(run)
     run.props()
     big = run.tier == 'thorough'
     run.suite('resolver-core', 'res_corr.py', [run.seed, 6000 if big else 1200], 'RS')
@@ -245,6 +251,7 @@ def C10(run):
     run.assumptions += RES_ASSUME
 def C11(run):
     run.static()
+    gen_scopes(run)
     run.props()
     big = run.tier == 'thorough'
     run.suite('assign-through', 'c11_corr.py', [run.seed, 6000 if big else 1200], 'CE')
